@@ -784,10 +784,8 @@ Section Count.
     assert (Hperm : t_root s ++ t_non s ++ q' ++ pc m' ++ [p] ≡ₚ tracked s []).
     { unfold tracked. rewrite (right_id_L [] (++)).
       destruct Hcase as [(-> & -> & _)|(-> & -> & _)].
-      - rewrite !(assoc_L (++)). rewrite <- Permutation_cons_append.
-        rewrite <- !(assoc_L (++)). by rewrite <- !Permutation_middle.
-      - rewrite !(assoc_L (++)). rewrite <- Permutation_cons_append.
-        rewrite <- !(assoc_L (++)). by rewrite <- !Permutation_middle. }
+      - do 2 f_equiv. cbn. rewrite (assoc_L (++)). by rewrite <- Permutation_cons_append.
+      - do 3 f_equiv. by rewrite <- Permutation_cons_append. }
     assert (Hpt : p ∈ tracked s []).
     { rewrite <- Hperm. rewrite !elem_of_app, elem_of_list_singleton. tauto. }
     assert (Hnd' : NoDup (t_root s ++ t_non s ++ q' ++ pc m' ++ [p])) by (by rewrite Hperm).
@@ -801,7 +799,7 @@ Section Count.
     assert (Hrcall : ∀ v, rc m' v = rc (t_m s) v).
     { intros v. rewrite Hh. by destruct (decide _). }
     assert (Hmkp : mk m' p = IQ) by (by rewrite Hh, decide_True).
-    split; unfold tracked at 1, proc, nobad; cbn [t_m t_root t_non t_q]; try done.
+    split; unfold tracked, proc, nobad; cbn [t_m t_root t_non t_q]; try done.
     - by rewrite Hlog.
     - destruct Hcase as [(_ & -> & _)|(_ & Hp & _)]; [done|].
       etrans; [|done]. rewrite Hp. by apply suffix_cons_r.
@@ -829,7 +827,7 @@ Section Count.
     - intros v Hv. rewrite Hrcall, Htcall. by apply Hroot.
   Qed.
 
-  Lemma nodup_bound (l : list nat) n :
+  Lemma nodup_bound (l : list id) n :
     NoDup l → (∀ x, x ∈ l → (x < n)%nat) → (length l ≤ n)%nat.
   Proof.
     intros Hnd Hlt. assert (Hsub : l ⊆+ seq 0 n).
@@ -889,7 +887,8 @@ Section Count.
       { rewrite (ci_size _ _ _ HI), Hpc. done. }
       assert (Hm1 : m1 = uhdr p (set_mark NM) (t_m s) <| pc := rest |>
                                 <| pc_size ::= λ n, (n - 1)%N |>).
-      { subst m1. unfold dec_size. cbn [pc_size]. rewrite pc_size_uhdr.
+      { subst m1. unfold dec_size.
+        change (pc_size (uhdr p (set_mark NM) (t_m s) <| pc := rest |>)) with (pc_size (t_m s)).
         destruct (N.eqb_spec (pc_size (t_m s)) 0) as [Hz|_]; [lia|done]. }
       assert (HI1 : CInv [p] [] (TState (uhdr p (set_mark IQ) m1) (t_root s) (t_non s) (t_q s))).
       { apply pop_inv; [done| |by rewrite Hm1| |].
